@@ -261,6 +261,42 @@ Proof.
   destruct (ingest_J y roll fault _ HJ) as [_ H2]. now apply H2.
 Qed.
 
+(* a manifest call that failed poisons the manifest, and a poisoned manifest refuses every later ingest:
+   what a reader of MANIFEST reconstructs never changes again in this process (the ingests still make
+   their hard link first, which stays behind as an orphan for the next open to clean up) *)
+Lemma fault_in_manifest_poisons x roll k s : mem x (i_sst s) = false -> i_poison s = false ->
+  (2 <= k)%nat -> (k < length (prog x roll s))%nat ->
+  i_poison (fst (ingest false x roll (Some k) s)) = true /\ snd (ingest false x roll (Some k) s) = false.
+Proof.
+  intros Ex Ep Hk Hl. unfold ingest. rewrite Ex. revert Hl. unfold prog. rewrite Ex, Ep.
+  assert (G : forall cs n s0, (n < length cs)%nat -> (forall c, In c cs -> is_mani_call c = true) ->
+              i_poison (fst (run_calls x cs (Some n) s0)) = true /\ snd (run_calls x cs (Some n) s0) = false).
+  { induction cs as [|c cs IH]; intros n s0 Hn Hc; cbn [length] in Hn; [lia|].
+    cbn [run_calls]. destruct n as [|n].
+    - rewrite (Hc c (or_introl eq_refl)). cbn. auto.
+    - apply IH; [lia|intros c' Hc'; apply Hc; now right]. }
+  destruct k as [|[|k]]; try lia. intros Hl.
+  assert (E : forall c1 c2 cs s0, run_calls x (c1 :: c2 :: cs) (Some (S (S k))) s0 =
+            run_calls x cs (Some k) (after x c2 (before x c2 (after x c1 (before x c1 s0))))) by reflexivity.
+  cbn [app] in *. rewrite E.
+  match goal with |- context [run_calls x ?cs (Some k) ?s0] =>
+    destruct (G cs k s0) as [G1 G2] end.
+  - cbn [length] in *. lia.
+  - intros c Hc. unfold tmp_calls in Hc. destruct roll, (i_tmp s); cbn in Hc;
+      repeat (destruct Hc as [<-|Hc]; [reflexivity|]); destruct Hc.
+  - match goal with |- context [run_calls x ?cs (Some k) ?s0] => destruct (run_calls x cs (Some k) s0) as [s1 ok] end.
+    cbn in *. subst. cbn. auto.
+Qed.
+
+Lemma poisoned_refuses x roll fault s : i_poison s = true ->
+  snd (ingest false x roll fault s) = false /\ i_live (fst (ingest false x roll fault s)) = i_live s /\
+  i_poison (fst (ingest false x roll fault s)) = true.
+Proof.
+  intros Ep. unfold ingest. destruct (mem x (i_sst s)) eqn:Ex; [cbn; auto|].
+  unfold prog. rewrite Ex, Ep. cbn [run_calls before after is_mani_call].
+  destruct fault as [[|[|k]]|]; cbn; rewrite ?andb_false_r; auto.
+Qed.
+
 (* the clean-up variant is wrong: a failure of the roll-over's hard link comes AFTER the edit
    reached MANIFEST; taking the link back leaves a listed sst without its file *)
 Definition cex_fault : option nat := Some 6%nat.    (* CRLink *)
